@@ -577,6 +577,60 @@ def check_v1_scopes(model, rep):
         raise AnalysisError(f'R19.6: only {nsites} functions obtaining scopes found, or the entry `parse` is not among them')
 
 
+def check_v1_alignment(model, rep):
+    """R19.7 (v1) alignment discipline.  _Array values are positional; their `indices` string says which axis is which.  Wherever two
+    (or a group of) arrays are tested for equal index SETS, they are about to be combined position by position, so one must be
+    transposed to the other's index ORDER before anything else happens (sibling agreement of _add_sub, align, stack, parse_substitution)."""
+    mod = model.module('expression_v1')
+    n = 0
+    for f in model.functions.values():
+        if f.module is not mod or isinstance(f.node, ast.Lambda):
+            continue
+        for s_ in ast.walk(f.node):
+            if not (isinstance(s_, ast.If) and any(isinstance(b, ast.Raise) for b in s_.body)):
+                continue
+            t = s_.test
+            pair = None
+            group = None
+            if isinstance(t, ast.Compare) and len(t.ops) == 1 and isinstance(t.ops[0], ast.NotEq):
+                sides = [t.left, t.comparators[0]]
+                names = []
+                for e in sides:
+                    if isinstance(e, ast.Call) and src(e.func) in ('set', 'frozenset') and len(e.args) == 1 and isinstance(e.args[0], ast.Attribute) and e.args[0].attr == 'indices' and isinstance(e.args[0].value, ast.Name):
+                        names.append(e.args[0].value.id)
+                if len(names) == 2:
+                    pair = names
+                elif src(t.comparators[0]) == '1' and isinstance(t.left, ast.Call) and src(t.left.func) == 'len' and '.indices' in src(t.left) and 'set(' in src(t.left):
+                    gens = [g for g in ast.walk(t.left) if isinstance(g, ast.comprehension)]
+                    if gens:
+                        group = src(gens[0].iter)
+            if pair is None and group is None:
+                continue
+            n += 1
+            later = [a for a in ast.walk(f.node) if isinstance(a, ast.Assign) and a.lineno > s_.lineno]
+            ok = False
+            if pair is not None:
+                x, y = pair
+                for a in later:
+                    v = a.value
+                    if isinstance(v, ast.Call) and method_name(v) == 'transpose' and isinstance(v.func, ast.Attribute) and isinstance(v.func.value, ast.Name) and len(v.args) == 1:
+                        moved, ref = v.func.value.id, src(v.args[0])
+                        if {moved, ref.replace('.indices', '')} == {x, y} and ref.endswith('.indices') and src(a.targets[0]) == moved:
+                            ok = True
+                what = f'`{x}` and `{y}`'
+            else:
+                for a in later:
+                    v = a.value
+                    if isinstance(v, ast.ListComp) and isinstance(v.elt, ast.Call) and method_name(v.elt) == 'transpose' and src(v.generators[0].iter) == group and src(a.targets[0]) == group:
+                        ok = True
+                what = f'the arrays in `{group}`'
+            rep.ob('R19.7', f.key, f.where(s_), ok, f'after the index-set test {what} are transposed to one index order before they are combined' if ok else
+                   f'{what} pass the test `{src(t)[:70]}` (equal index sets) but are then combined without transposing one to the other\'s index order: `?x_ij(x_ji = A_ij)`-style operands are matched axis by axis '
+                   'in the order written, not by index', statement=f'aligned-after-set-test@{f.name}')
+    if n < 4:
+        raise AnalysisError(f'R19.7: only {n} index-set tests found in expression_v1 (_add_sub, align, stack, parse_substitution expected)')
+
+
 def run(model, rep, tier):
     rep.explanation = (
         'R19.1 error discipline of expression_v2._Parser: every explicit raise raises ExpressionSyntaxError (or a local bound to one), every int()/float() of user text sits under a '
@@ -592,6 +646,7 @@ def run(model, rep, tier):
     rep.rule('R19.3', 'v2 tables: brackets, array operations, default functions')
     rep.rule('R19.4', 'v1: _IntermediateError never escapes; grammar methods @highlight')
     rep.rule('R19.5', 'v1: opcode writer/reader agreement')
+    rep.rule('R19.7', 'v1: arrays that passed an index-set equality test are transposed to a common index order before they are combined')
     rep.rule('R19.6', 'v1: the delimiter of every parsed scope is asserted by whoever obtained the scope (whole-input consumption at the entry)')
     check_v2_errors(model, rep)
     check_v2_guards(model, rep)
@@ -599,6 +654,7 @@ def run(model, rep, tier):
     check_v1_escape(model, rep)
     check_v1_opcodes(model, rep)
     check_v1_scopes(model, rep)
+    check_v1_alignment(model, rep)
     rep.require('R19.1', 35)
     rep.require('R19.2', 20)
     rep.require('R19.3', 30)
